@@ -388,8 +388,30 @@ func (m *Machine) idealHash(in []*Term) []*Term {
 			m.sol().Assert(m.tt.Or(m.tt.Not(eq), same))
 		}
 	}
+	if m.hashInjective {
+		for _, a := range m.hashLog {
+			m.assertHashInjective(a, hashApp{in, out})
+		}
+	}
 	m.hashLog = append(m.hashLog, hashApp{in, out})
 	return out
+}
+
+// assertHashInjective adds "different inputs => different digests" for one pair of applications.
+func (m *Machine) assertHashInjective(a, b hashApp) {
+	same := m.tt.Bool(true)
+	for i := range a.out {
+		same = m.tt.And(same, m.tt.Cmp("=", a.out[i], b.out[i]))
+	}
+	if len(a.in) != len(b.in) {
+		m.sol().Assert(m.tt.Not(same))
+		return
+	}
+	eq := m.tt.Bool(true)
+	for i := range a.in {
+		eq = m.tt.And(eq, m.tt.Cmp("=", a.in[i], b.in[i]))
+	}
+	m.sol().Assert(m.tt.Or(eq, m.tt.Not(same)))
 }
 
 func execPkg(p string) bool {
